@@ -503,4 +503,22 @@ def c04_complete_then_damage(k=1):
         end = f"raise {type(e).__name__}"
     return {"violates": out != list(range(k)) or end == "stop", "detail": f"{k} complete record frame(s) then a damaged one: yielded {out}, ended {end}"}
 
-CALLS = {"c04_complete_then_damage": c04_complete_then_damage, "c04_short_mid": c04_short_mid, "c04_equal_frames_cut": c04_equal_frames_cut, "c04_extra_bytes": c04_extra_bytes, "c04_short_prefix": c04_short_prefix, "c04_gz_flushpoint": c04_gz_flushpoint, "c04_large_values": c04_large_values, "c04_roundtrip": c04_roundtrip, "c04_cut": c04_cut, "c04_unknown_identifier": c04_unknown_identifier, "c04_fail": c04_fail, "c04_sweep": c04_sweep, "c04_model_conformance": c04_model_conformance}
+
+def c04_embedded_stream(cut_back=1):
+    from flow.record import RecordDescriptor
+
+    B = RecordDescriptor("c04/blobrec", [("bytes", "data"), ("varint", "n")])
+    I = RecordDescriptor("c04/inner", [("varint", "k")])
+    inner, _ = _write_stream([I(k=99)])
+    data, _ = _write_stream([B(data=b"x", n=1), B(data=inner, n=2)])
+    out, end = [], "stop"
+    from flow.record.stream import RecordStreamReader
+
+    try:
+        for r in RecordStreamReader(io.BytesIO(data[: len(data) - cut_back])):
+            out.append((r._desc.name, getattr(r, "n", getattr(r, "k", None))))
+    except Exception as e:
+        end = f"raise {type(e).__name__}"
+    return {"violates": out != [("c04/blobrec", 1)], "detail": f"outer stream cut {cut_back} byte(s) inside the frame that holds an embedded stream: yielded {out}, ended {end}"}
+
+CALLS = {"c04_embedded_stream": c04_embedded_stream, "c04_complete_then_damage": c04_complete_then_damage, "c04_short_mid": c04_short_mid, "c04_equal_frames_cut": c04_equal_frames_cut, "c04_extra_bytes": c04_extra_bytes, "c04_short_prefix": c04_short_prefix, "c04_gz_flushpoint": c04_gz_flushpoint, "c04_large_values": c04_large_values, "c04_roundtrip": c04_roundtrip, "c04_cut": c04_cut, "c04_unknown_identifier": c04_unknown_identifier, "c04_fail": c04_fail, "c04_sweep": c04_sweep, "c04_model_conformance": c04_model_conformance}
